@@ -40,6 +40,10 @@ def cases(tier, seed):
                 variants = [({'A': None}, 'grad')]
             for tr, api in variants:
                 cs.append({'scen': 'ad_grad', 's': dict(base, tracked=tr, api=api)})
+            if e in EXPRS[:2] + ['dot']:
+                cs.append({'scen': 'ad_grad', 's': dict(base, tracked={'x': None}, api='grad', unwatch=True)})
+                if uses_y:
+                    cs.append({'scen': 'ad_grad', 's': dict(base, tracked={'x': None, 'y': None}, api='grad_list', watch='list', unwatch=True)})
     # objects made by factories: every core is its own variable (also when mode sizes repeat)
     for kind, N in (('ones', [2, 2]), ('ones', [3, 3, 2]), ('zeros', [2, 2]), ('zeros', [2, 3, 2]), ('eye', [2, 2]), ('eye', [2, 3])):
         cs.append({'scen': 'ad_factory', 's': {'kind': kind, 'N': N}})
